@@ -177,6 +177,11 @@ def do_replay(prop: str, path: str) -> int:
         print("outcome recorded:", case.get("outcome"), "at step", case.get("step"))
         bytepipe.replay(case)
         return 0
+    if "multi" in case:
+        # several gateways alive in one process (C05): re-executed on the implementation
+        from .props import multigw
+        multigw.replay(case)
+        return 0
     print(json.dumps(case, indent=1, default=str)[:4000])
     print("(this engine's cases are replayed by re-running the check: the corpus and the seed reproduce them)")
     return 0
